@@ -29,6 +29,14 @@
      str + start).
    * attach(str, len) is specified for off + len < |buffer| STRICTLY: one more byte of foreign memory must
      be readable behind the window, because the C-string view inspects str[len] before deciding to copy.
+   * PRECONDITION of attach (round 5, second audit finding A): the attached range is memory the CALLER keeps alive -
+     a foreign buffer ([OAttach v r off len] names a region).  It must not lie inside the block the String itself
+     owns: attach() releases that block (it is not memory the caller keeps alive after the call), so
+     s.attach((const char pointer)s + 1, 3) on an owned s views freed memory.  "Including when an argument is the
+     String itself" of the property text is about VALUE arguments (append / prepend / assign / replace / join /
+     printf / + with the String or a pointer into its text: the value is read, as if from a copy); attach takes no
+     value, it takes over a memory range, and no repair short of copying (which would make attach an assign) gives
+     the self-range case a meaning.  Attaching to the window the String ALREADY views (not owned) is fine and driven.
    * resize(n) beyond length() is the composite "resize, then write the n - length() exposed bytes
      through operator char*()" ([OResize v n c] fills with c): the bytes resize() itself exposes are
      indeterminate in the code and are never observed.
@@ -38,8 +46,10 @@
      byte strings.  fromBool gives "true" / "false" (and, like a literal, a new foreign buffer holding the text).
      fromCString(str) takes a C string, fromCString(str, n) the first n bytes of a buffer of at least n bytes.
      toBool reads the C-string view (NUL-free values); [s_tobool] is false exactly for the empty text, "false" in any
-     case, "0", and zeros around one decimal point with at least one zero - "00", "0.0." and "0x" are true.  The static
-     char functions are ASCII ([lower], [upper], membership in explicit alphabets); the static find(in, str) /
+     case, "0", and zeros around one decimal point with at least one zero - "00", "0.0." and "0x" are true.  toBool
+     and the classifiers isSpace ... isHexDigit are NOT operations of the property text: [s_tobool] / [s_char]
+     describe the code, and [seen] (end of this file) removes their results from the property-level observation
+     (round 5).  The static char functions are ASCII ([lower], [upper], membership in explicit alphabets); the static find(in, str) /
      findOneOf(in, chars) are the first-occurrence searches on two C strings.  scanf is not part of this reference. *)
 From Coq Require Import ZArith List Bool Arith Lia.
 From Common Require Import ListAux.
@@ -191,8 +201,11 @@ Definition s_replace (needle repl hay : list Z) : list Z :=
 
 Fixpoint dropwhile (f : Z -> bool) (l : list Z) : list Z :=
   match l with [] => [] | x :: t => if f x then dropwhile f t else l end.
+(* list reversal in linear time (List.rev is quadratic, which matters for the 2^16-byte values of the check);
+   frev l = rev l is StrLists.frev_rev *)
+Definition frev {A} (l : list A) : list A := rev_append l [].
 Definition s_trim (chars l : list Z) : list Z :=
-  rev (dropwhile (fun c => memb c chars) (rev (dropwhile (fun c => memb c chars) l))).
+  frev (dropwhile (fun c => memb c chars) (frev (dropwhile (fun c => memb c chars) l))).
 
 (* substr(start, length) with the documented clamping (negative start counts from the end,
    negative length = to the end) *)
@@ -213,8 +226,8 @@ Definition s_token (P : list Z -> bool) (l : list Z) (start : nat) : list Z * na
 (* split at every separator byte *)
 Fixpoint split_all (seps : list Z) (cur : list Z) (l : list Z) : list (list Z) :=
   match l with
-  | [] => [rev cur]
-  | x :: t => if memb x seps then rev cur :: split_all seps [] t else split_all seps (x :: cur) t
+  | [] => [frev cur]
+  | x :: t => if memb x seps then frev cur :: split_all seps [] t else split_all seps (x :: cur) t
   end.
 Definition nonempty (l : list Z) : bool := match l with [] => false | _ => true end.
 Definition s_split (seps l : list Z) (skipEmpty : bool) : list (list Z) :=
